@@ -432,4 +432,30 @@ def Spec.configVerdict (shlex : Text → Option (List Text)) (ic : ImageCfg) (cr
   else if ¬ Spec.ScalarsOk ic created arch o then "fail:scalars"
   else "pass"
 
+/-! ## 8. The configuration as the build resolves it
+
+`apko build` does not hand the configuration it was given to `BuildImageFromLayers`: `Validate` fills in the
+command of a `service-bundle` entrypoint, and `mutateAccounts` replaces a `run-as` that names a user of the
+image's `/etc/passwd` (shipped by a package or configured) by that user's id.  The image config mirrors the
+configuration *as resolved*; `passwd` is the `(name, uid)` column pair of the image's own passwd file. -/
+
+def serviceBundleType : Text := "service-bundle".toList
+def serviceBundleCommand : Text := "/bin/s6-svscan /sv".toList
+
+/-- first passwd entry with that name wins; an unknown name (or a number) stays as written -/
+def Spec.resolveRunAs (passwd : List (Text × Text)) (runAs : Text) : Text :=
+  match passwd.find? (fun e => e.1 = runAs) with
+  | some e => e.2
+  | none => runAs
+
+def Spec.resolveCfg (epType : Text) (passwd : List (Text × Text)) (ic : ImageCfg) : ImageCfg :=
+  { ic with
+    epCmd := if epType = serviceBundleType then serviceBundleCommand else ic.epCmd
+    runAs := if ic.runAs = [] then [] else Spec.resolveRunAs passwd ic.runAs }
+
+/-- the end-to-end oracle: the emitted config against the configuration as resolved -/
+def Spec.e2eVerdict (shlex : Text → Option (List Text)) (epType : Text) (passwd : List (Text × Text))
+    (ic : ImageCfg) (created arch : Text) (o : OciConfig) : String :=
+  Spec.configVerdict shlex (Spec.resolveCfg epType passwd ic) created arch o
+
 end Apko.Oci
